@@ -86,11 +86,15 @@ def getAt (snap t : Nat) (vs : List HVer) : Option Nat :=
   | some v => if v.kind.isTomb then none else some v.val
   | none => none
 
+/-- keep the candidate with the strictly greater timestamp -/
+def specPick (best : Option HVer) (v : HVer) : Option HVer :=
+  match best with
+  | none => some v
+  | some b => if v.ts > b.ts then some v else some b
+
 /-- the property: the retained version with the greatest timestamp not above `t` -/
 def specGetAt (snap t : Nat) (vs : List HVer) : Option Nat :=
   let cands := (specKey { tombs := true } snap vs).filter (fun v => decide (v.ts ≤ t))
-  match cands.foldl (fun (best : Option HVer) v => match best with
-      | none => some v
-      | some b => if v.ts > b.ts then some v else some b) none with
+  match cands.foldl specPick none with
   | some v => if v.kind.isTomb then none else some v.val
   | none => none
